@@ -159,6 +159,12 @@ pub fn run(config: Config) -> ::anyhow::Result<()> {
             .name("signals".into())
             .spawn(move || {
                 for signal in &mut signals {
+                    // Verification hook: fault injection point
+                    #[cfg(aquatic_verif)]
+                    if aquatic_common::verif::fault("http_signals", 0) {
+                        return Ok(());
+                    }
+
                     match signal {
                         SIGUSR1 => {
                             let _ = update_access_list(&config.access_list, &state.access_list);
